@@ -245,6 +245,7 @@ CLAUSES = {
     17: "runnable identities changed, yet ReloadWithConfig/Reload was called on a child",
     18: "failed callback, yet a child was touched", 19: "failed callback, but the state is not Error",
     30: "no Reload() in flight, but the runner does not hold the configuration most recently returned by its callback",
+    31: "at final quiescence GetChildStates() does not list the runnables of the stored configuration of any model state compatible with the trace",
     20: "Running and no reload in progress, but the running children are not exactly the configured ones",
     21: "Stop()/Reload()/Run() still blocked at final quiescence (deadlock)",
     22: "a child is still running after Run() returned",
